@@ -71,10 +71,17 @@ impl OrphanPool {
         self.entries.get(id)
     }
 
+    /// The out points an orphan may be waiting for: the cells it spends and the cells it refers
+    /// to as cell deps (an unknown cell dep parks a transaction just like an unknown input).
+    fn waited_out_points(tx: &TransactionView) -> impl Iterator<Item = OutPoint> {
+        tx.input_pts_iter()
+            .chain(tx.cell_deps_iter().map(|dep| dep.out_point()))
+    }
+
     pub fn remove_orphan_tx(&mut self, id: &ProposalShortId) -> Option<Entry> {
         self.entries.remove(id).inspect(|entry| {
             debug!("remove orphan tx {}", entry.tx.hash());
-            for out_point in entry.tx.input_pts_iter() {
+            for out_point in Self::waited_out_points(&entry.tx) {
                 if let Some(ids_set) = self.by_out_point.get_mut(&out_point) {
                     ids_set.remove(id);
 
@@ -147,7 +154,7 @@ impl OrphanPool {
             Entry::new(tx.clone(), peer, declared_cycle),
         );
 
-        for out_point in tx.input_pts_iter() {
+        for out_point in Self::waited_out_points(&tx) {
             self.by_out_point
                 .entry(out_point)
                 .or_default()
@@ -159,10 +166,13 @@ impl OrphanPool {
     }
 
     pub fn find_by_previous(&self, tx: &TransactionView) -> Vec<&ProposalShortId> {
+        // an orphan that waits for several outputs of `tx` is returned once
         tx.output_pts()
             .iter()
             .filter_map(|out_point| self.by_out_point.get(out_point))
             .flatten()
+            .collect::<HashSet<_>>()
+            .into_iter()
             .collect::<Vec<_>>()
     }
 }
